@@ -14,11 +14,44 @@ ASSUMPTIONS = ["MessagePack (msgpacker) and deflate (miniz_oxide) are external a
 THEOREMS_NOTE = "Plonk/Props/C15.lean"
 
 
+def hades_table():
+    """the scalars of the built-in dictionary of the compressed format (src/composer/compress/hades.rs): the 335 round
+    constants (SHA-512 chain, running sum) and the 25 entries 1/(i+j+5) of the MDS matrix (which REPEAT: 9 distinct values)"""
+    import hashlib
+    cs, pacc, b = [], 1, b"poseidon-for-plonk"
+    for _ in range(67 * 5):
+        b = hashlib.sha512(b).digest()
+        c = (int.from_bytes(b, "little") + pacc) % R
+        cs.append(c); pacc = c
+    mds = [inv(i + j + 5) for i in range(5) for j in range(5)]
+    return cs, mds
+
+
+HADES_CONSTANTS, HADES_MDS = hades_table()
+
+
 def circuits(rng, n):
     out = []
     for i in range(n):
         p = Prog()
-        k = i % 6
+        k = i % 7
+        if k == 6:      # selectors taken from the built-in dictionary: every distinct MDS entry, some round constants
+            ks = sorted(set(HADES_MDS)) + [rng.choice(HADES_CONSTANTS) for _ in range(3)] + [rng.choice(HADES_MDS) for _ in range(2)]
+            if i % 14 == 13:
+                ks = [rng.choice(HADES_MDS) for _ in range(2 + rng.below(3))] + [rng.choice(HADES_CONSTANTS)]
+            for kk in ks:
+                x = rng.fe()
+                a, c = p.w(x), p.w(kk * x % R)
+                pos = rng.below(3)
+                if pos == 0:    # k*a - c = 0
+                    p.gate([0, kk, 0, R - 1, 0, 0], None, a, "#0", c, "#0")
+                elif pos == 1:  # k*b - c = 0
+                    p.gate([0, 0, kk, R - 1, 0, 0], None, "#0", a, c, "#0")
+                else:           # a*1*... : q_m = k on (a, one)   k*a*1 - c = 0
+                    one = p.w(1)
+                    p.gate([kk, 0, 0, R - 1, 0, 0], None, a, one, c, "#0")
+            out.append(p.src())
+            continue
         ws = [p.w(rng.fe()) for _ in range(2 + rng.below(4))]          # some stay unused
         if k == 0:      # repeated selector tuples
             for _ in range(3):
